@@ -4,7 +4,25 @@ import os, signal, subprocess, tempfile, time
 from . import strace
 
 
+def holds_lock(steps):
+    """does a process that has run exactly these calls hold the exclusive lock?"""
+    got = any(s["call"] == "flock" and "LOCK_EX" in s.get("flags", []) and s["ret"] == "0" for s in steps)
+    dropped = any((s["call"] == "flock" and "LOCK_UN" in s.get("flags", [])) for s in steps)
+    # closing the lock descriptor drops the lock too
+    closed = False
+    seen_lock = False
+    for s in steps:
+        if s["call"] == "flock" and "LOCK_EX" in s.get("flags", []) and s["ret"] == "0":
+            seen_lock = True
+        elif seen_lock and s["call"] == "close" and s["obj"] == "lock":
+            closed = True
+    return got and not dropped and not closed
+
+
 class Parked:
+    """`steps_at_park`: the calls the parked process has really run (its own trace).  strace counts `when=` per *thread*, and
+    the Go runtime may move the main goroutine to another thread between two calls, so the process can stop later than the
+    addressed call (never earlier): every judgement about "where A is" has to use `steps_at_park`, not the address."""
     def __init__(self, store, argv, stdin, point, env=None, binary=None):
         """start `argv`; it stops right after the given (syscall, n-th occurrence) returns"""
         self.out = tempfile.NamedTemporaryFile(prefix="ergo-park-", delete=False); self.out.close()
@@ -24,6 +42,7 @@ class Parked:
         self.store = store
         self.tracee = None
         self.point = point
+        self.steps_at_park = []
         self.parked = self._wait_parked()
 
     def _children(self):
@@ -45,6 +64,7 @@ class Parked:
             steps = strace.parse(open(self.out.name).read(), self.store)
         except Exception:
             return False
+        self.steps_at_park = steps
         return sum(1 for st in steps if st["call"] == self.point[0]) >= self.point[1]
 
     def _wait_parked(self, timeout=10.0):
